@@ -219,15 +219,34 @@ def toOracleTable (j : Json) : Except String OracleTable := do
     | .error _ => pure [])
   pure { calls := calls, eqs := eqs, enums := enums }
 
-def OracleTable.toOracle (t : OracleTable) : Oracle where
+/-- sets are compared without regard to element order -/
+partial def normV : V → V
+  | .coll o vs =>
+      let vs' := vs.map normV
+      if o == .set || o == .frozenset then
+        .coll o ((vs'.toArray.qsort (fun a b => (ofV a).compress < (ofV b).compress)).toList)
+      else .coll o vs'
+  | .map o kvs => .map o (kvs.map (fun kv => (normV kv.1, normV kv.2)))
+  | .ntuple c vs => .ntuple c (vs.map normV)
+  | .inst c fs => .inst c (fs.map (fun kv => (kv.1, normV kv.2)))
+  | .tagged m v => .tagged m (normV v)
+  | v => v
+
+/-- `missOk` decides what an operation that is absent from the table does: raise, or return
+    a marker.  A case whose result differs between the two is one the table did not cover
+    (reported as inconclusive by the driver instead of being compared). -/
+def OracleTable.toOracle (t : OracleTable) (missOk : Bool := false) : Oracle where
   call := fun op v =>
-    match t.calls.find? (fun e => decide (e.1 = op) && e.2.1 == v) with
+    let nv := normV v
+    match t.calls.find? (fun e => decide (e.1 = op) && normV e.2.1 == nv) with
     | some e => e.2.2
-    | none => .error .other
+    | none => if missOk then .ok (.str "<<oracle-miss>>") else .error .other
   eq := fun a b =>
-    match t.eqs.find? (fun e => e.1 == a && e.2.1 == b) with
+    let na := normV a
+    let nb := normV b
+    match t.eqs.find? (fun e => normV e.1 == na && normV e.2.1 == nb) with
     | some e => e.2.2
-    | none => a == b
+    | none => na == nb
   enumValue := fun c m => (t.enums.find? (fun e => e.1 == c && e.2.1 == m)).map (·.2.2)
 
 def ofExc : Exc → Json
